@@ -1,7 +1,7 @@
 """Exploration plans per property: which harness families / option sets are
 enumerated in the quick and thorough tiers, with which build variant."""
 
-HARNESS_SOURCES = ["engine.c", "ref.c", "qsx.c", "lpfam.c", "h_inst.c", "h_hist.c", "families.c"]
+HARNESS_SOURCES = ["engine.c", "ref.c", "qsx.c", "lpfam.c", "h_inst.c", "h_hist.c", "families.c"]  # keep in sync with harness/families.c
 
 
 def lp(id, variant, fam, cfg="default", weight=1, **kw):
@@ -49,4 +49,49 @@ for pid, title in (("C02", "INFEASIBLE only with an exact Farkas certificate"),
                    ("C04", "the answer is a function of the LP only")):
     PLANS[pid] = dict(PLANS["C01"])
     PLANS[pid]["title"] = title
+
+
+def hist(id, variant, depth, reduced=0, weight=1, family="hist", **kw):
+    r = {"id": id, "variant": variant, "family": family, "opts": {"depth": depth, "reduced": reduced}, "weight": weight,
+         "crash_props": ["C17", "C05", "C06"] if family == "hist" else ["C17", "C07"], "timeout": 60}
+    r.update(kw)
+    return r
+
+
+HIST_ASSUME = [
+    "the reference model (harness/ref.c RefLP) applies the documented meaning of each call; change_sense(i,'R') resets the range to 0 as documented in lib.c",
+    "solving or writing a problem without any column is treated as out of scope (such histories are counted as inapplicable)",
+    "a history is explored as a full tree without state merging: each item replays start + ops on a fresh object inside one QSexactStart..QSexactClear bracket",
+]
+HIST_RULE = ("item = (start problem in {empty,1x1,testsuite3x2,ranged2x2,degenerate3x3,infeasible2x2}, op_1..op_d) over the operation alphabet of "
+             "harness/h_hist.c (66 concrete transitions; 'reduced' keeps the 24 that touch basis/cache/factorization); every item is executed on the real library "
+             "in lock-step with the model; non-trivial = every op of the history was applicable in the state it was issued in")
+
+PLANS["C05"] = {
+    "title": "re-solve after edits equals solve from scratch; no stale solution",
+    "rule": HIST_RULE,
+    "quick": [hist("hist-d1-san", "san", 1), hist("hist-d2-san", "san", 2, weight=3), hist("hist-d3r-prod", "prod", 3, reduced=1, weight=3)],
+    "thorough": [hist("hist-d2-san", "san", 2), hist("hist-d3r-san", "san", 3, reduced=1, weight=4), hist("hist-d3-prod", "prod", 3, weight=10),
+                 hist("hist-d4r-prod", "prod", 4, reduced=1, weight=10)],
+    "bounds": {"quick": "all histories of depth <= 2 over the full alphabet; depth 3 over the reduced alphabet; 6 start problems",
+               "thorough": "depth 3 over the full alphabet, depth 4 over the reduced alphabet"},
+    "evidence": {"states": ["histories"], "transitions": ["api_transitions"], "nontrivial": ["histories"]},
+    "assumptions": HIST_ASSUME,
+}
+PLANS["C06"] = dict(PLANS["C05"])
+PLANS["C06"]["title"] = "query functions reflect exactly the edits made"
+PLANS["C07"] = {
+    "title": "invalid arguments are rejected and leave the problem untouched",
+    "rule": ("item = (start problem, valid prefix of <= depth ops, one invalid call out of 236: every index-taking mpq_QS* function x boundary values "
+             "{-1,count,count+1,internal column count-1,internal column count,INT_MAX}, list variants with the bad entry first/last, unknown/duplicate/NULL names, "
+             "illegal sense/bound/objsense selectors, unknown parameters and values, malformed bases, missing files); oracle: non-zero return (index -1 accepted for the two "
+             "pure look-ups), no sanitizer report, full observable dump (model conformance, basis, status, solution arrays, parameters) identical before and after, "
+             "problem still solves to the model's answer; non-trivial = the variant denotes an invalid call in that state"),
+    "quick": [hist("inv-d0-san", "san", 0, family="inv"), hist("inv-d1-prod", "prod", 1, family="inv", weight=4), hist("inv-d1r-san", "san", 1, reduced=1, family="inv", weight=4)],
+    "thorough": [hist("inv-d1-san", "san", 1, family="inv", weight=4), hist("inv-d2r-prod", "prod", 2, reduced=1, family="inv", weight=8)],
+    "bounds": {"quick": "lifecycle states = 6 starts x every valid prefix of length <= 1 (67 prefixes) x 236 invalid calls",
+               "thorough": "prefixes of length <= 2 over the reduced alphabet"},
+    "evidence": {"states": ["invalid_calls"], "transitions": ["api_transitions"], "nontrivial": ["invalid_calls"]},
+    "assumptions": HIST_ASSUME,
+}
 NOT_YET = {}
